@@ -183,9 +183,13 @@ theorem interp_good (reg : Registry) : ∀ f : Nat,
             · exact Good.withCtx c1 (ihW _ _ _ _)
 
 /-- Top level. -/
+theorem writeBody_good (reg : Registry) (fuel : Nat) (nodes : List Node) (s : St) : Good s (writeBody reg fuel nodes s) := by
+  unfold writeBody
+  exact Good.andThen ((interp_good reg fuel).1 nodes s) (fun _ => good_ctx_only)
+
 theorem write_good (reg : Registry) (fuel : Nat) (nodes : List Node) (s : St) : Good s (write reg fuel nodes s) := by
   unfold write
-  exact Good.andThen ((interp_good reg fuel).1 nodes s) (fun _ => good_ctx_only)
+  exact writeBody_good reg fuel nodes s.topStart
 
 theorem writeKey_good (reg : Registry) (fuel : Nat) (key : Bytes) (s : St) : Good s (writeKey reg fuel key s) := by
   unfold writeKey
